@@ -8,7 +8,7 @@ use yasna::Tag;
 #[cfg(feature = "pem")]
 use crate::ENCODE_CONFIG;
 use crate::{
-	oid, write_distinguished_name, write_dt_utc_or_generalized,
+	dt_to_generalized, oid, write_distinguished_name, write_dt_utc_or_generalized,
 	write_x509_authority_key_identifier, write_x509_extension, Certificate, Error, Issuer,
 	KeyIdMethod, KeyPair, KeyUsagePurpose, SerialNumber,
 };
@@ -404,7 +404,9 @@ impl RevokedCertParams {
 							oid::CRL_INVALIDITY_DATE,
 							false,
 							|writer| {
-								write_dt_utc_or_generalized(writer, invalidity_date);
+								// RFC 5280 section 5.3.2: InvalidityDate ::= GeneralizedTime,
+								// whatever the year.
+								writer.write_generalized_time(&dt_to_generalized(invalidity_date));
 							},
 						)
 					}
